@@ -39,6 +39,12 @@ impl InFlightRequests {
         self.request_data.len()
     }
 
+    /// Number of pending deadline timers (read-only verification accessor).
+    #[cfg(feature = "verif")]
+    pub fn verif_deadline_timers(&self) -> usize {
+        self.deadlines.len()
+    }
+
     /// Starts a request, unless a request with the same ID is already in flight.
     pub fn start_request(
         &mut self,
